@@ -173,7 +173,11 @@ def replay_flows(cases, chk, judge, quick):
         for ei, envt in enumerate(envs[fam]):
             envf = {k: evalterm.ev(t, {}) for k, t in envt.items()}
             envf["pi"] = math.pi
-            u_code, L_code = build_flow(fam, axes, envf)
+            try:
+                u_code, L_code = build_flow(fam, axes, envf)
+            except Exception as ex:  # noqa: BLE001
+                judge.note(fam, "constructor-raised-for-valid-arguments", False, dict(fam=fam, axes=axes, env=envf, exc=repr(ex)[:200]))
+                continue
             # evaluate spec and code at all point classes
             rows = []
             for pi_, pt in enumerate(pts[fam]):
@@ -186,6 +190,8 @@ def replay_flows(cases, chk, judge, quick):
                 try:
                     uc = np.asarray(u_code(np.nan, x), dtype=float)
                     Lc = np.asarray(L_code(np.nan, x), dtype=float)
+                    if uc.shape != (3,) or Lc.shape != (3, 3):
+                        raise TypeError(f"callables returned shapes {uc.shape}, {Lc.shape}")
                 except Exception as ex:  # noqa: BLE001
                     inst = dict(fam=fam, axes=axes, env=envf, x=x.tolist(), cls=pt["cls"], exc=repr(ex)[:200])
                     judge.note(fam, "callable-raised-inside-domain", False, inst)
@@ -327,55 +333,33 @@ def budgeted(u, counter):
     return f
 
 
-def run_pathline(job):
-    """Call the real get_pathline and project the result to the events PathTrace.tla reads.
+def measure_path(tid, ts, pos, u, L, lo, hi, xf, max_strain, strain_inc, tamper=None):
+    """Project a returned (timestamps, interpolant) to the Stamps / Seg / End events PathTrace.tla reads.
 
-    Measures (all on the returned interpolant, no formula of the flows is used):
+    Measures (all on the interpolant, no formula of the flows is used):
     * knots = the interpolant's own step boundaries (scipy OdeSolution.ts; a uniform grid if absent);
     * ODE residual at the middle of every step, central difference over half the step (the stencil never
       straddles a step boundary), compared with the velocity callable there; only on the interior 96 % of
       the time span, only where the whole stencil is inside the box, and not in the step in which the path
       leaves the box (the integrated field is discontinuous there: zero outside the box);
     * excursion outside the box at the knots, 4 points per step and the returned timestamps;
-    * tensorial strain = sum of strain_increment(dt, gradient callable) over 4 sub-intervals per step, over
+    * tensorial strain = sum of strain_inc(dt, gradient callable) over 4 sub-intervals per step, over
       the part of the path that is inside the box.
+    tamper (negative controls of this recorder): judge the path against a 1.2 x field / account strain with
+    a 2 x gradient / a box 2 % smaller on every side / a shifted end point.
     """
-    tid, rec, seed = job[:3]
-    tamper = job[3] if len(job) > 3 else None  # negative controls of the recorder (see main)
-    rep = job[4] if len(job) > 4 else 0
-    quiet_pydrex()
-    from pydrex import pathlines, utils
-
-    a = concretise(rec, seed, rep)
-    envf = {"rate": a["amp"], "U": a["amp"], "d": a["size"]}
-    u, L = build_flow(a["fam"], a["axes"], envf)
-    lo, hi, xf = np.array(a["lo"]), np.array(a["hi"]), np.array(a["xf"])
-    ih, iv = a["ih"], a["iv"]
-    interior = bool(lo[ih] < xf[ih] < hi[ih] and lo[iv] < xf[iv] < hi[iv])
-    ev = [dict(tid=tid, ev="Call", scen=rec["scen"], interior=interior, out="returned")]
-    info = dict(args=a)
-    nev = [0]
-    try:
-        ts, pos = pathlines.get_pathline(xf, budgeted(u, nev), L, lo, hi, a["max_strain"], regular_steps=a["steps"])
-    except NoReturn as ex:
-        ev[0]["out"] = "NoReturn"
-        info["exc"] = repr(ex)
-        return ev, info
-    except Exception as ex:  # noqa: BLE001
-        ev[0]["out"] = exc_class(ex)
-        info["exc"] = repr(ex)[:200]
-        return ev, info
+    ev, info = [], {}
     ts = np.asarray(ts, dtype=float)
     ext = float((hi - lo).max())
-    if tamper == "velocity":  # judge the path against a field that is 20 % faster than the one integrated
+    if tamper == "velocity":
         u0 = u
-        u = lambda t, x: 1.2 * u0(t, x)  # noqa: E731
-    elif tamper == "gradient":  # account the strain with twice the gradient that limited the path
+        u = lambda t, x: 1.2 * np.asarray(u0(t, x))  # noqa: E731
+    elif tamper == "gradient":
         L0 = L
-        L = lambda t, x: 2.0 * L0(t, x)  # noqa: E731
-    elif tamper == "box":  # judge the path against a box 2 % smaller on every side
+        L = lambda t, x: 2.0 * np.asarray(L0(t, x))  # noqa: E731
+    elif tamper == "box":
         lo, hi = lo + 0.02 * (hi - lo), hi - 0.02 * (hi - lo)
-    elif tamper == "end":  # ask whether the path ends somewhere else
+    elif tamper == "end":
         xf = xf + 1e-6 * ext
 
     def excursion(x):
@@ -387,7 +371,7 @@ def run_pathline(job):
                    endDev_e12=cap(math.ceil(end_dev * 1e12) if math.isfinite(end_dev) else math.inf)))
     t0 = float(ts[0]) if len(ts) else 0.0
     T = -t0
-    info.update(T=T, nT=int(len(ts)), endDev=end_dev, nfev=nev[0])
+    info.update(T=T, nT=int(len(ts)), endDev=end_dev)
     segs = [[0.0, 0.0, 0.0] for _ in range(NSEG)]  # excursion, ODE residual, strain
 
     def seg_of(t):
@@ -415,7 +399,7 @@ def run_pathline(job):
                 k = seg_of(tm)
                 segs[k][0] = max(segs[k][0], e / ext)
                 if e <= 0:
-                    segs[k][2] += float(utils.strain_increment(float(w), np.asarray(L(np.nan, xm), dtype=float)))
+                    segs[k][2] += float(strain_inc(float(w), np.ascontiguousarray(np.asarray(L(np.nan, xm), dtype=float))))
             tm, h = 0.5 * (ka + kb), 0.25 * (kb - ka)
             if n == 0 or tm - h < a_lo or tm + h > a_hi:
                 continue
@@ -431,8 +415,72 @@ def run_pathline(job):
         ev.append(dict(tid=tid, ev="Seg", k=k, ode_e6=cap(ode * 1e6), out_e6=cap(max(out, 0.0) * 1e6), dStrain_e6=cap(dstrain * 1e6, 200_000_000)))
     ev.append(dict(tid=tid, ev="End"))
     info.update(ode=max(s[1] for s in segs) / umax if umax > 0 else 0.0, outside=max(max(s[0] for s in segs), 0.0),
-                ratio=sum(s[2] for s in segs) / a["max_strain"])
+                ratio=sum(s[2] for s in segs) / max_strain)
     return ev, info
+
+
+def run_pathline(job):
+    """Call the real get_pathline for one scenario and record the events of its pathline.
+    Anything the implementation raises (constructor, get_pathline, interpolant, callables during the
+    measurement) is an outcome of the call, never a harness failure."""
+    tid, rec, seed = job[:3]
+    rep = job[4] if len(job) > 4 else 0
+    quiet_pydrex()
+    from pydrex import pathlines, utils
+
+    a = concretise(rec, seed, rep)
+    envf = {"rate": a["amp"], "U": a["amp"], "d": a["size"]}
+    lo, hi, xf = np.array(a["lo"]), np.array(a["hi"]), np.array(a["xf"])
+    ih, iv = a["ih"], a["iv"]
+    interior = bool(lo[ih] < xf[ih] < hi[ih] and lo[iv] < xf[iv] < hi[iv])
+    ev = [dict(tid=tid, ev="Call", scen=rec["scen"], interior=interior, out="returned")]
+    info = dict(args=a)
+    nev = [0]
+    try:
+        u, L = build_flow(a["fam"], a["axes"], envf)
+        ts, pos = pathlines.get_pathline(xf, budgeted(u, nev), L, lo, hi, a["max_strain"], regular_steps=a["steps"])
+    except NoReturn as ex:
+        ev[0]["out"] = "NoReturn"
+        info["exc"] = repr(ex)
+        return ev, info
+    except Exception as ex:  # noqa: BLE001
+        ev[0]["out"] = exc_class(ex)
+        info["exc"] = repr(ex)[:200]
+        return ev, info
+    try:
+        ev2, info2 = measure_path(tid, ts, pos, u, L, lo, hi, xf, a["max_strain"], utils.strain_increment)
+    except Exception as ex:  # noqa: BLE001
+        ev[0]["out"] = "measure:" + type(ex).__name__  # the returned object or the callables raised while being evaluated
+        info["exc"] = repr(ex)[:200]
+        return ev, info
+    info.update(info2, nfev=nev[0])
+    return ev + ev2, info
+
+
+class SynthPath:
+    """Exact pathline of the linear field u = (rate * x3, 0, 0): x(t) = xf + u(xf) t (recorder controls only)."""
+
+    def __init__(self, xf, vel, T, n=20):
+        self.xf, self.vel = np.asarray(xf, dtype=float), np.asarray(vel, dtype=float)
+        self.ts = np.linspace(-T, 0.0, n + 1)
+
+    def __call__(self, t):
+        return self.xf + self.vel * t
+
+
+def synthetic_recording(tid, scen, tamper):
+    """An implementation-independent pathline (exact solution of a linear field built here, strain law written
+    out here) pushed through the same recorder; with a tamper the trace spec must reject it."""
+    rate, lim = 1.0, scen["lim_e1"] / 10.0
+    xf = np.array([0.97, 0.0, 0.5])
+    u = lambda t, x: np.array([rate * x[2], 0.0, 0.0])  # noqa: E731
+    L = lambda t, x: np.array([[0.0, 0.0, rate], [0.0, 0.0, 0.0], [0.0, 0.0, 0.0]])  # noqa: E731
+    sinc = lambda dt, G: abs(dt) * float(np.abs(np.linalg.eigvalsh((G + G.T) / 2)).max())  # noqa: E731
+    T = lim / (rate / 2)  # the strain limit is reached exactly at t = -T
+    pos = SynthPath(xf, u(0, xf), T)
+    lo, hi = np.array([-1.0, 0.0, -1.0]), np.array([1.0, 0.0, 1.0])
+    ev, info = measure_path(tid, pos.ts, pos, u, L, lo, hi, xf, lim, sinc, tamper)
+    return [dict(tid=tid, ev="Call", scen=scen, interior=True, out="returned")] + ev, info
 
 
 def validate(events, d, cfg, name="trace.ndjson", timeout=1200):
@@ -483,10 +531,14 @@ def main(tier):
     for e in (c for c in cases if c["kind"] == "axis"):
         replay_axis_entry(pd, e, chk)
         chk.count(("axis", e["a"], e["b"]))
-    probe = Check("C18", tier, dry=True)
-    replay_axis_entry(pd, dict(a="X", b="Z", ok=True, idx=[2, 0], exc="None"), probe)
-    replay_axis_entry(pd, dict(a="X", b="Z", ok=False, idx=[], exc="ValueError"), probe)
-    chk.control("wrong-axis-table-entry-detected", len(probe.violations) >= 2, str([v[0] for v in probe.violations]))
+    # negative control built from the table's own entries and synthetic outcomes (independent of the implementation)
+    e_ok = next(c for c in cases if c["kind"] == "axis" and c["a"] == "X" and c["b"] == "Z")
+    e_bad = next(c for c in cases if c["kind"] == "axis" and c["a"] == "X" and c["b"] == "X")
+    verdicts = [axis_verdict(e_ok, "to_indices2d", "returned", tuple(e_ok["idx"])), axis_verdict(e_ok, "to_indices2d", "returned", (2, 0)),
+                axis_verdict(e_ok, "cell", "ValueError", None), axis_verdict(e_bad, "corner", "returned", None),
+                axis_verdict(e_bad, "to_indices2d", "other:KeyError", None), axis_verdict(e_bad, "simple_shear", "ValueError", None)]
+    chk.control("wrong-axis-outcomes-detected", [v and v["kind"] for v in verdicts] == [None, "wrong-indices", "valid-pair-rejected", "invalid-pair", "invalid-pair", None],
+                str([v and v["kind"] for v in verdicts]))
     chk.sample(dict(kind="axis-entry", entry=next(c for c in cases if c["kind"] == "axis" and c["ok"])))
 
     # ---- 4. gradient = Jacobian of the documented field, trace-free
@@ -506,26 +558,36 @@ def main(tier):
                           f"first: axes={inst.get('axes')} x={inst.get('x')} gradient={inst.get('gradient')} jacobian-of-velocity={inst.get('jacobian')}",
                           dict(kind="flow", instance=inst, failing=nfail, evaluated=npass + nfail))
 
-    # ---- 5. strain increments
+    # ---- 5. strain increments (dt > 0, dt < 0 and dt = 0 classes; the statement says |dt|)
     sfail = {}
     strains = [c for c in cases if c["kind"] == "strain"]
+    by_dt = {}
+    for c in strains:
+        by_dt[dt_class(c)] = by_dt.get(dt_class(c), 0) + 1
+    chk.cov["strain_cases_by_dt_sign"] = by_dt
+    if min(by_dt.get(k, 0) for k in ("negative", "positive", "zero")) < 1:
+        raise MachineryError(f"Flows.tla strain cases do not cover all dt sign classes: {by_dt}")
     for c in strains:
         ok, dev, got, exp = strain_dev(utils, c)
         chk.count(("strain", json.dumps(c["L"]), tuple(c["dt"]), c["eL"], c["eT"]))
-        t = judge.table.setdefault(("strain:" + c["fam"], "strain-increment"), [0, 0])
+        t = judge.table.setdefault((f"strain:{c['fam']}:dt-{dt_class(c)}", "strain-increment"), [0, 0])
         t[0 if ok else 1] += 1
         if ok:
             chk.maximum("strain_increment_dev_over_scale", dev)
         else:
-            sfail.setdefault(c["fam"], []).append(dict(case=c, got=got, expected=exp))
-    for fam, lst in sorted(sfail.items()):
-        chk.violation(dict(clause="strain-increment", family=fam), f"strain_increment differs from |dt| max|eig D| on {len(lst)} exact {fam} cases; first: got {lst[0]['got']} expected {lst[0]['expected']}",
+            sfail.setdefault((c["fam"], dt_class(c)), []).append(dict(case=c, got=got, expected=exp))
+    for (fam, dtc), lst in sorted(sfail.items()):
+        L0, dt0, _, _ = strain_case(lst[0]["case"])
+        chk.violation(dict(clause="strain-increment", family=fam, dt=dtc),
+                      f"strain_increment differs from |dt| max|eig D| on {len(lst)} exact {fam} cases with {dtc} dt; first: dt={dt0} L={L0.tolist()} got {lst[0]['got']} expected {lst[0]['expected']}",
                       dict(kind="strain", instance=lst[0], failing=len(lst)))
-    c0 = next(c for c in strains if c["fam"] == "pythagorean-shear" and c["expected"][0] > 0)
-    ok0, _, got0, exp0 = strain_dev(utils, c0)
-    okp, _, _, _ = strain_dev(utils, c0, expected=exp0 * (1 + 1e-6))
-    chk.control("perturbed-strain-increment-detected", ok0 and not okp, f"exact ok={ok0}, perturbed ok={okp}")
-    chk.sample(dict(kind="strain-case", case=c0, got=got0))
+    # negative control of the comparator, from the spec's own exact value (independent of the implementation)
+    c0 = next(c for c in strains if c["fam"] == "pythagorean-shear" and c["expected"][0] > 0 and c["dt"][0] < 0)
+    _, _, exp0, sc0 = strain_case(c0)
+    j = [strain_judge(exp0, exp0, sc0)[0], strain_judge(exp0 * (1 + 1e-13), exp0, sc0)[0], strain_judge(exp0 * (1 + 1e-6), exp0, sc0)[0],
+         strain_judge(-exp0, exp0, sc0)[0], strain_judge(float("nan"), exp0, sc0)[0]]
+    chk.control("perturbed-strain-increment-detected", j == [True, True, False, False, False], str(j))
+    chk.sample(dict(kind="strain-case", case=c0, got=strain_dev(utils, c0)[2]))
 
     # ---- 6. pathlines: call the real get_pathline for every selected scenario, record, validate
     for fam in ("simple_shear", "cell", "corner"):  # JIT warm-up in the parent so that forked workers inherit it
@@ -603,17 +665,16 @@ def main(tier):
                                f"{info.get('exc', '')}{ {k: float('%.4g' % v) for k, v in info.items() if k in ('ratio', 'ode', 'outside', 'endDev', 'T')} if 'ratio' in info else ''}",
                           dict(kind="pathline", scenario=rec, seed=SEED, rep=(tid - 1) % draws, args=info["args"], info={k: v for k, v in info.items() if k != "args"}, event=events[line - 1],
                                failing=len(tids), of=nfam[sig["family"]], other_failing_scenarios=[infos[t][0]["scen"] for t in tids[1:6]]))
-        good = next((tid for tid, (rec, info) in infos.items() if "ratio" in info and info["T"] > 0), None)
-        if good is None:
-            raise MachineryError("no pathline returned at all: nothing to build the trace controls from")
-        chk.sample(dict(kind="pathline-events", events=[e for e in events if e["tid"] == good][:4], info={k: v for k, v in infos[good][1].items() if k != "args"}))
-        # negative controls: corrupt one accepted pathline per clause; the trace spec must name each clause
-        rejected_tids = {t for t, _, _ in rejects}
-        good2 = next((tid for tid, (rec, info) in sorted(infos.items()) if "ratio" in info and info["T"] > 0 and tid not in rejected_tids), None)
-        if good2 is None:
-            raise MachineryError("no accepted pathline to build the trace controls from")
-        base = [e for e in events if e["tid"] == good2]
-        lim = base[0]["scen"]["lim_e1"]
+        good = next((tid for tid, (rec, info) in sorted(infos.items()) if "ratio" in info and info["T"] > 0), None)
+        shown = good if good is not None else min(infos)
+        chk.sample(dict(kind="pathline-events", events=[e for e in events if e["tid"] == shown][:4], info={k: v for k, v in infos[shown][1].items() if k != "args"}))
+        # ---- negative controls, all independent of the implementation -------------------------------------
+        # (a) trace spec: a hand-made accepted pathline (values from the spec's own thresholds), one corrupted copy per clause
+        cscen = dict(fam="simple_shear", axes="XZ", par="unit", box="sym", loc=dict(kind="cell", i=4, j=3), lim_e1=5, steps=0)
+        lim = cscen["lim_e1"]
+        base = [dict(tid=0, ev="Call", scen=cscen, interior=True, out="returned"),
+                dict(tid=0, ev="Stamps", nT=21, incr=True, tLast0=True, endDev_e12=0)] \
+            + [dict(tid=0, ev="Seg", k=k, ode_e6=100, out_e6=10, dStrain_e6=lim * 100000 // NSEG) for k in range(1, NSEG + 1)] + [dict(tid=0, ev="End")]
 
         def variant(n, f):
             v = json.loads(json.dumps(base))
@@ -626,48 +687,47 @@ def main(tier):
             return v
 
         variants = [
-            ("untouched", lambda v: v, None),
-            ("pathline-returned:ValueError", lambda v: [dict(v[0], out="ValueError")], None),
-            ("timestamps-increasing", lambda v: set_(v, 1, "incr", False), None),
-            ("ends-at-t0", lambda v: set_(v, 1, "tLast0", False), None),
-            ("ends-at-final-location", lambda v: set_(v, 1, "endDev_e12", 1001), None),
-            ("follows-velocity", lambda v: set_(v, 4, "ode_e6", 50001), None),
-            ("inside-box", lambda v: set_(v, 6, "out_e6", 1001), None),
-            ("strain-bound", lambda v: set_(v, 3, "dStrain_e6", v[3]["dStrain_e6"] + 125000 * lim), None),
-            ("malformed:Seg-in-phase-segs", lambda v: v[:5] + v[6:], None),
+            ("untouched", lambda v: v),
+            ("pathline-returned:ValueError", lambda v: [dict(v[0], out="ValueError")]),
+            ("timestamps-increasing", lambda v: set_(v, 1, "incr", False)),
+            ("ends-at-t0", lambda v: set_(v, 1, "tLast0", False)),
+            ("ends-at-final-location", lambda v: set_(v, 1, "endDev_e12", 1001)),
+            ("follows-velocity", lambda v: set_(v, 4, "ode_e6", 50001)),
+            ("inside-box", lambda v: set_(v, 6, "out_e6", 1001)),
+            ("strain-bound", lambda v: set_(v, 3, "dStrain_e6", v[3]["dStrain_e6"] + 25000 * lim + 8)),
+            ("at-the-thresholds", lambda v: set_(set_(set_(set_(v, 1, "endDev_e12", 1000), 4, "ode_e6", 50000), 6, "out_e6", 1000), 3, "dStrain_e6", v[3]["dStrain_e6"] + 25000 * lim)),
+            ("malformed:Seg-in-phase-segs", lambda v: v[:5] + v[6:]),
         ]
         bad_events = []
-        for n, (name, f, _) in enumerate(variants, start=1):
+        for n, (name, f) in enumerate(variants, start=1):
             bad_events.extend(variant(n, f))
-        # recorder controls: the same real pathline measured against a tampered field / gradient / box / end point
-        accepted = [(tid, info) for tid, (rec, info) in sorted(infos.items()) if "ratio" in info and tid not in rejected_tids]
-        tampers = [("velocity", "follows-velocity", lambda i: i.get("steps", 0) >= 12),
-                   ("gradient", "strain-bound", lambda i: i["ratio"] > 0.9),
-                   ("box", "inside-box", lambda i: i["outside"] > 1e-7 and i.get("steps", 0) >= 3),
-                   ("end", "ends-at-final-location", lambda i: True)]
-        for n, (tm, _, pred) in enumerate(tampers, start=100):
-            cand = [tid for tid, info in accepted if pred(info)]
-            if not cand:
-                raise MachineryError(f"no accepted pathline to build the recorder control '{tm}' from")
-            evs, _ = run_pathline((n, infos[cand[0]][0], SEED, tm, (cand[0] - 1) % draws))
-            bad_events.extend(evs)
-        # a malformed pathline leaves the machine mid-trace; close it with a fresh Call so that DONE sees "idle"
+        # a malformed pathline leaves the machine mid-trace; the next Call must resynchronise it
         bad_events.extend(variant(len(variants) + 1, lambda v: v))
+        # (b) recorder: an exact pathline of a linear field built here, pushed through measure_path untouched and tampered
+        tampers = [(None, None), ("velocity", "follows-velocity"), ("gradient", "strain-bound"), ("box", "inside-box"), ("end", "ends-at-final-location")]
+        synth_info = {}
+        for n, (tm, _) in enumerate(tampers, start=100):
+            evs, synth_info[n] = synthetic_recording(n, cscen, tm)
+            bad_events.extend(evs)
         rj, tr2, _ = validate(bad_events, d, cfg, name="controls.ndjson")
         got = {}
         for tid, line, clause in rj:
             got.setdefault(tid, set()).add(clause)
-        for n, (name, _, _) in enumerate(variants, start=1):
-            if name == "untouched":
-                chk.control("trace-control-untouched-accepted", n not in got, str(got.get(n)))
+        for n, (name, _) in enumerate(variants, start=1):
+            if name in ("untouched", "at-the-thresholds"):
+                chk.control(f"trace-control-{name}-accepted", n not in got, str(got.get(n)))
             elif name.startswith("malformed"):
                 chk.control("trace-control-malformed-named", any(c.startswith("malformed") for c in got.get(n, ())), str(got.get(n)))
             else:
                 chk.control(f"trace-control-{name.split(':')[0]}-rejected", got.get(n) == {name}, str(got.get(n)))
         chk.control("trace-control-resynchronises-after-malformed", (len(variants) + 1) not in got, str(got.get(len(variants) + 1)))
-        for n, (tm, clause, _) in enumerate(tampers, start=100):
-            chk.control(f"recorder-control-tampered-{tm}-rejected-as-{clause}", clause in got.get(n, ()), str(got.get(n)))
-        chk.add_tlc("PathTrace(controls)", tr2, f"{len(bad_events)} lines: one corrupted copy of an accepted pathline per clause, one malformed, four tampered recordings")
+        for n, (tm, clause) in enumerate(tampers, start=100):
+            si = {k: float("%.3g" % v) for k, v in synth_info[n].items() if k in ("ode", "outside", "ratio", "endDev")}
+            if tm is None:
+                chk.control("recorder-control-exact-synthetic-pathline-accepted", n not in got, f"{got.get(n)} {si}")
+            else:
+                chk.control(f"recorder-control-tampered-{tm}-rejected-as-{clause}", got.get(n) == {clause}, f"{got.get(n)} {si}")
+        chk.add_tlc("PathTrace(controls)", tr2, f"{len(bad_events)} lines: a hand-made accepted pathline, one corrupted copy per clause, one at the thresholds, one malformed; an exact synthetic pathline recorded untouched and with four tampers")
 
     chk.cov["pathline_outcomes"] = {f"{f}/{o}": n for (f, o), n in sorted(outcome.items())}
     chk.cov["clause_table"] = {f"{f}/{c}": dict(passed=p, failed=n) for (f, c), (p, n) in sorted(judge.table.items())}
